@@ -112,13 +112,14 @@ func init() {
 		&slip.FuncDoc{
 			Name: "help",
 			Args: []*slip.DocArg{
+				{Name: "&optional"},
 				{
-					Name: "object",
-					Type: "object",
-					Text: "The _object_ to check whether it is a _bag-path_ or not.",
+					Name: "topic",
+					Type: "string|symbol",
+					Text: "The help topic, one of index, config, edit, history or useful. Without a topic an overview is printed.",
 				},
 			},
-			Text: `__help__ returns _t_ if _object- is a _bag-path_ and _nil_ otherwise.`,
+			Text: `__help__ prints the REPL help text for the _topic_ and returns _nil_.`,
 			Examples: []string{
 				`(help) => nil ;; print help text`,
 			},
